@@ -275,6 +275,18 @@ static void run_file(Ctx& cx, const std::string& path, const Expect& ex) {
         for (SetItem<Tag>* it = info.label_tags.next(NULL); it; it = info.label_tags.next(it)) ilt.insert(it->value);
         if (ist != st || ilt != lt) viol(cx, "info", "tags", {}, "shape/label tag sets differ from the full load", "part=info");
         if (info.unit != full.unit || info.precision != full.precision) viol(cx, "info", "units", {}, fmt("summary unit/precision %g/%g, full load %g/%g", info.unit, info.precision, full.unit, full.precision), "part=info");
+        // the same summary object reused after clear(): a second summary of the same file must give the same answer
+        // (gds_info only adds to the counters it is given, so clear() has to reset every one of them)
+        info.clear();
+        ErrorCode ie2 = gds_info(path.c_str(), info);
+        std::set<Tag> ist2, ilt2;
+        for (SetItem<Tag>* it = info.shape_tags.next(NULL); it; it = info.shape_tags.next(it)) ist2.insert(it->value);
+        for (SetItem<Tag>* it = info.label_tags.next(NULL); it; it = info.label_tags.next(it)) ilt2.insert(it->value);
+        if (ie2 != ie || info.cell_names.count != full.cell_array.count || info.num_polygons != np || info.num_paths != nf || info.num_references != nr || info.num_labels != nl || ist2 != st || ilt2 != lt ||
+            info.unit != full.unit || info.precision != full.precision)
+            viol(cx, "info", "reused-summary-object", {}, fmt("after clear() and a second gds_info: %llu cells, counts %llu/%llu/%llu/%llu, %zu/%zu tags; full load %llu cells, %llu/%llu/%llu/%llu, %zu/%zu", (unsigned long long)info.cell_names.count,
+                                                                 (unsigned long long)info.num_polygons, (unsigned long long)info.num_paths, (unsigned long long)info.num_references, (unsigned long long)info.num_labels, ist2.size(), ilt2.size(),
+                                                                 (unsigned long long)full.cell_array.count, (unsigned long long)np, (unsigned long long)nf, (unsigned long long)nr, (unsigned long long)nl, st.size(), lt.size()), "part=info");
         info.clear();
         R->count("cases");
     }
